@@ -31,6 +31,7 @@ func c13Letters() []cletter {
 		{"CopyFail(why)", "fail", "", pgproto.CopyFail("why")},
 		{"CopyData(xyz\\n)", "data", "xyz\n", pgproto.CopyData([]byte("xyz\n"))},
 		{"CopyFail(reason without NUL)", "fail", "", pgproto.Msg('f', []byte("boom"))},
+		{"CopyFail(reason with NUL bytes inside)", "fail", "", pgproto.Msg('f', []byte("disk\x00full\x00\x00"))},
 		{"Sync", "sync", "", pgproto.Sync()},
 		{"Query(ok)", "query", "", pgproto.Query(progRows)},
 		{"CopyData()", "data", "", pgproto.CopyData(nil)},
